@@ -16,18 +16,21 @@ def SlotIdx (s : Slot) : Prop := Sched s.active s.byKey s.buckets
 
 /-! #### frame facts -/
 
+local macro "unsched_frame" : tactic =>
+  `(tactic| (unfold Slot.unschedule; (split <;> (try rfl)); (split <;> (try rfl)); simp only; (split <;> rfl)))
+
 @[simp] theorem unschedule_active (s : Slot) (k : Key) : (s.unschedule k).active = s.active := by
-  unfold Slot.unschedule; repeat' split <;> rfl
+  unsched_frame
 @[simp] theorem unschedule_tomb (s : Slot) (k : Key) : (s.unschedule k).tomb = s.tomb := by
-  unfold Slot.unschedule; repeat' split <;> rfl
+  unsched_frame
 @[simp] theorem unschedule_pending (s : Slot) (k : Key) : (s.unschedule k).pending = s.pending := by
-  unfold Slot.unschedule; repeat' split <;> rfl
+  unsched_frame
 @[simp] theorem unschedule_ownerSeq (s : Slot) (k : Key) : (s.unschedule k).ownerSeq = s.ownerSeq := by
-  unfold Slot.unschedule; repeat' split <;> rfl
+  unsched_frame
 @[simp] theorem unschedule_target (s : Slot) (k : Key) : (s.unschedule k).target = s.target := by
-  unfold Slot.unschedule; repeat' split <;> rfl
+  unsched_frame
 @[simp] theorem unschedule_nextID (s : Slot) (k : Key) : (s.unschedule k).nextID = s.nextID := by
-  unfold Slot.unschedule; repeat' split <;> rfl
+  unsched_frame
 
 @[simp] theorem schedule_active (s : Slot) (k : Key) (r : Route) : (s.schedule k r).active = s.active := by
   unfold Slot.schedule; simp only; repeat' split <;> simp
@@ -288,7 +291,7 @@ theorem sched_schedule {s : Slot} {A : List Route} {k : Key} {r : Route}
         · subst hkk
           simp only [if_true]
           constructor
-          · intro _; rfl
+          · intro _; trivial
           · intro _
             refine ⟨_, rfl, ?_⟩
             split
